@@ -31,6 +31,16 @@ pub mod proto {
     pub struct Layer { pub number: i64, pub purpose: i64 }
     pub struct LayerShapes { pub layer: Option<Layer>, pub rectangles: Vec<Rectangle>, pub polygons: Vec<Polygon>, pub paths: Vec<Path> }
     pub struct Layout { pub name: String, pub shapes: Vec<LayerShapes>, pub instances: Vec<Instance>, pub annotations: Vec<TextElement> }
+    pub struct AbstractPort { pub net: String, pub shapes: Vec<LayerShapes> }
+    pub struct Abstract { pub name: String, pub outline: Option<Polygon>, pub ports: Vec<AbstractPort>, pub blockages: Vec<LayerShapes> }
+    pub struct Cell { pub name: String, pub r#abstract: Option<Abstract>, pub layout: Option<Layout> }
+    pub struct Library { pub domain: String, pub units: i32, pub cells: Vec<Cell> }
+    #[derive(Debug, Clone, Copy)]
+    pub enum Units { Micro = 0, Nano = 1, Angstrom = 2 }
+    impl Default for AbstractPort { fn default() -> (r: Self) ensures r.net@.len() == 0, r.shapes@.len() == 0 { AbstractPort { net: String::new(), shapes: Vec::new() } } }
+    impl Default for Abstract { fn default() -> (r: Self) ensures r.name@.len() == 0, r.outline is None, r.ports@.len() == 0, r.blockages@.len() == 0 { Abstract { name: String::new(), outline: None, ports: Vec::new(), blockages: Vec::new() } } }
+    impl Default for Cell { fn default() -> (r: Self) ensures r.name@.len() == 0, r.r#abstract is None, r.layout is None { Cell { name: String::new(), r#abstract: None, layout: None } } }
+    impl Default for Library { fn default() -> (r: Self) ensures r.domain@.len() == 0, r.units == 0, r.cells@.len() == 0 { Library { domain: String::new(), units: 0, cells: Vec::new() } } }
     impl Default for LayerShapes { fn default() -> (r: Self) ensures r.layer is None, r.rectangles@.len() == 0, r.polygons@.len() == 0, r.paths@.len() == 0 { LayerShapes { layer: None, rectangles: Vec::new(), polygons: Vec::new(), paths: Vec::new() } } }
     impl Default for Layout { fn default() -> (r: Self) ensures r.name@.len() == 0, r.shapes@.len() == 0, r.instances@.len() == 0, r.annotations@.len() == 0 { Layout { name: String::new(), shapes: Vec::new(), instances: Vec::new(), annotations: Vec::new() } } }
     // prost messages derive Default: every field its type's default
@@ -47,7 +57,24 @@ impl<T> Ptr<T> {
     pub fn read(&self) -> (r: LayoutResult<&T>) ensures r is Ok ==> *r->Ok_0 == *self.v { Ok(&*self.v) }
 }
 impl<T> Clone for Ptr<T> { #[verifier::external_body] fn clone(&self) -> (r: Self) ensures r == *self { unimplemented!() } }
-pub struct Cell { pub name: String }
+/// model of layout21utils::PtrList<T> (newtype over Vec<Ptr<T>>); `insert` = `add`: wrap in a new Ptr, append, return the pointer
+pub struct PtrList<T> { pub v: Vec<Ptr<T>> }
+impl<T> View for PtrList<T> { type V = Seq<Ptr<T>>; open spec fn view(&self) -> Seq<Ptr<T>> { self.v@ } }
+impl<T> PtrList<T> {
+    #[verifier::external_body]
+    pub fn insert(&mut self, t: T) -> (r: Ptr<T>) ensures final(self)@ == old(self)@.push(r), *r.v == t { unimplemented!() }
+}
+//@ item layout21raw/src/data.rs :: enum Units
+//@   derive Debug, Clone, Copy
+//@ end
+//@ item layout21raw/src/data.rs :: struct AbstractPort
+//@ end
+//@ item layout21raw/src/data.rs :: struct Abstract
+//@ end
+//@ item layout21raw/src/data.rs :: struct Cell
+//@ end
+/// R5: layout21raw::Library without its shared layer table (modelled by the functions `nums` / `layer_of`)
+pub struct Library { pub name: String, pub units: Units, pub cells: PtrList<Cell> }
 //@ item layout21raw/src/geom.rs :: struct Point
 //@   derive Debug, Copy, Clone
 //@ end
@@ -63,8 +90,8 @@ pub struct Cell { pub name: String }
 //@ end
 //@ item layout21raw/src/data.rs :: struct TextElement
 //@ end
-/// model of slotmap's LayerKey: an opaque copyable key
-#[derive(Debug, Clone, Copy)]
+/// model of slotmap's LayerKey: an opaque copyable, hashable key
+#[derive(Debug, Clone, Copy, PartialEq, Eq, Hash)]
 pub struct LayerKey { pub id: u64 }
 //@ item layout21raw/src/data.rs :: enum LayerPurpose
 //@ end
@@ -123,56 +150,54 @@ pub open spec fn net_exp(g: Seq<char>, net: Option<String>) -> bool { match net 
 // =====================================================================================================
 // EXPORTER (layout21raw/src/proto.rs)
 // =====================================================================================================
-// R5: exporter without its `lib: &Library` field
 //@ item layout21raw/src/proto.rs :: struct ProtoExporter
-//@   sub R5 /ProtoExporter<'lib>/ => ProtoExporter
-//@   sub R5 /lib: &'lib Library,/ =>
+//@   sub R4 /\n    lib:/ => \n    pub lib:
 //@   sub R4 /\n    ctx:/ => \n    pub ctx:
 //@ end
-impl ProtoExporter {
+impl<'lib> ProtoExporter<'lib> {
     #[verifier::external_body]
     fn fail<T, M>(&self, msg: M) -> (r: LayoutResult<T>) ensures r is Err { Err(LayoutError { }) }
 //@ fn layout21raw/src/proto.rs :: impl<'lib> ProtoExporter<'lib> :: fn export_point
 //@   ret r
 //@   spec
-//|     ensures r is Ok, same_pt(r->Ok_0, *p),
+//|     ensures final(self).lib == old(self).lib, r is Ok, same_pt(r->Ok_0, *p),
 //@ end
     /// ASSUMED element-wise contract of `points.iter().map(|p| self.export_point(p)).collect::<Result<Vec<_>, _>>()?` (rule R6)
     #[verifier::external_body]
     fn vp_export_points(&mut self, pts: &Vec<Point>) -> (r: LayoutResult<Vec<proto::Point>>)
-        ensures r is Ok, same_pts(r->Ok_0@, pts@),
+        ensures final(self).lib == old(self).lib, r is Ok, same_pts(r->Ok_0@, pts@),
     { unimplemented!() }
 //@ fn layout21raw/src/proto.rs :: impl<'lib> ProtoExporter<'lib> :: fn export_rect
 //@   ret r
 //@   sub R7 /net: ""\.into\(\),/ => net: String::new(),
 //@   spec
 //|     requires small(rect.p0), small(rect.p1),
-//|     ensures r is Ok, rect_is(r->Ok_0, *rect), r->Ok_0.net@.len() == 0,
+//|     ensures final(self).lib == old(self).lib, r is Ok, rect_is(r->Ok_0, *rect), r->Ok_0.net@.len() == 0,
 //@ end
 //@ fn layout21raw/src/proto.rs :: impl<'lib> ProtoExporter<'lib> :: fn export_polygon
 //@   ret r
 //@   sub R7 /net: ""\.into\(\),/ => net: String::new(),
 //@   sub R6 /poly\s*\.points\s*\.iter\(\)\s*\.map\(\|p\| self\.export_point\(p\)\)\s*\.collect::<Result<Vec<_>, _>>\(\)\?/ => self.vp_export_points(&poly.points)?
 //@   spec
-//|     ensures r is Ok ==> poly_is(r->Ok_0, *poly) && r->Ok_0.net@.len() == 0,
+//|     ensures final(self).lib == old(self).lib, r is Ok ==> poly_is(r->Ok_0, *poly) && r->Ok_0.net@.len() == 0,
 //@ end
 //@ fn layout21raw/src/proto.rs :: impl<'lib> ProtoExporter<'lib> :: fn export_path
 //@   ret r
 //@   sub R7 /net: ""\.into\(\),/ => net: String::new(),
 //@   sub R6 /path\s*\.points\s*\.iter\(\)\s*\.map\(\|p\| self\.export_point\(p\)\)\s*\.collect::<Result<Vec<_>, _>>\(\)\?/ => self.vp_export_points(&path.points)?
 //@   spec
-//|     ensures r is Ok ==> path_is(r->Ok_0, *path) && r->Ok_0.net@.len() == 0,
+//|     ensures final(self).lib == old(self).lib, r is Ok ==> path_is(r->Ok_0, *path) && r->Ok_0.net@.len() == 0,
 //@ end
 //@ fn layout21raw/src/proto.rs :: impl<'lib> ProtoExporter<'lib> :: fn export_annotation
 //@   ret r
 //@   spec
-//|     ensures r is Ok ==> r->Ok_0.string@ == text.string@ && r->Ok_0.loc is Some && same_pt(r->Ok_0.loc->0, text.loc),
+//|     ensures final(self).lib == old(self).lib, r is Ok ==> r->Ok_0.string@ == text.string@ && r->Ok_0.loc is Some && same_pt(r->Ok_0.loc->0, text.loc),
 //@ end
 //@ fn layout21raw/src/proto.rs :: impl<'lib> ProtoExporter<'lib> :: fn export_shape
 //@   ret r
 //@   spec
 //|     requires shape_small(*shape),
-//|     ensures r is Ok ==> shape_exp(r->Ok_0, *shape) && pnet(r->Ok_0).len() == 0,
+//|     ensures final(self).lib == old(self).lib, r is Ok ==> shape_exp(r->Ok_0, *shape) && pnet(r->Ok_0).len() == 0,
 //|         shape is Rect ==> r is Ok,
 //@ end
 //@ fn layout21raw/src/proto.rs :: impl<'lib> ProtoExporter<'lib> :: fn export_element
@@ -180,31 +205,31 @@ impl ProtoExporter {
 //@   sub R5 /net\.to_string\(\)/ => net.clone()
 //@   spec
 //|     requires shape_small(elem.inner),
-//|     ensures r is Ok ==> shape_exp(r->Ok_0, elem.inner) && net_exp(pnet(r->Ok_0), elem.net),
+//|     ensures final(self).lib == old(self).lib, r is Ok ==> shape_exp(r->Ok_0, elem.inner) && net_exp(pnet(r->Ok_0), elem.net),
 //@ end
 //@ fn layout21raw/src/proto.rs :: impl<'lib> ProtoExporter<'lib> :: fn export_and_add_shape
 //@   ret r
 //@   spec
 //|     requires shape_small(*shape),
-//|     ensures r is Ok ==> final(pshapes).layer == old(pshapes).layer && (match *shape {
+//|     ensures final(self).lib == old(self).lib, r is Ok ==> final(pshapes).layer == old(pshapes).layer && (match *shape {
 //|         // the shape is appended to the list of its own kind; the two other lists are untouched
 //|         Shape::Rect(rc) => final(pshapes).rectangles@.len() == old(pshapes).rectangles@.len() + 1 && final(pshapes).rectangles@.drop_last() == old(pshapes).rectangles@
-//|             && rect_is(final(pshapes).rectangles@.last(), rc) && final(pshapes).polygons@ == old(pshapes).polygons@ && final(pshapes).paths@ == old(pshapes).paths@,
+//|             && rect_is(final(pshapes).rectangles@.last(), rc) && final(pshapes).rectangles@.last().net@.len() == 0 && final(pshapes).polygons@ == old(pshapes).polygons@ && final(pshapes).paths@ == old(pshapes).paths@,
 //|         Shape::Polygon(p) => final(pshapes).polygons@.len() == old(pshapes).polygons@.len() + 1 && final(pshapes).polygons@.drop_last() == old(pshapes).polygons@
-//|             && poly_is(final(pshapes).polygons@.last(), p) && final(pshapes).rectangles@ == old(pshapes).rectangles@ && final(pshapes).paths@ == old(pshapes).paths@,
+//|             && poly_is(final(pshapes).polygons@.last(), p) && final(pshapes).polygons@.last().net@.len() == 0 && final(pshapes).rectangles@ == old(pshapes).rectangles@ && final(pshapes).paths@ == old(pshapes).paths@,
 //|         Shape::Path(p) => final(pshapes).paths@.len() == old(pshapes).paths@.len() + 1 && final(pshapes).paths@.drop_last() == old(pshapes).paths@
-//|             && path_is(final(pshapes).paths@.last(), p) && final(pshapes).rectangles@ == old(pshapes).rectangles@ && final(pshapes).polygons@ == old(pshapes).polygons@,
+//|             && path_is(final(pshapes).paths@.last(), p) && final(pshapes).paths@.last().net@.len() == 0 && final(pshapes).rectangles@ == old(pshapes).rectangles@ && final(pshapes).polygons@ == old(pshapes).polygons@,
 //|     }),
 //@ end
     /// the float side of export_angle is outside the verifier: ASSUMED contract (whole degrees or an error), see DESIGN
     #[verifier::external_body]
     fn export_angle(&mut self, angle: Option<f64>) -> (r: LayoutResult<i32>)
-        ensures match angle { None => r == Ok::<i32, LayoutError>(0), Some(a) => (r is Ok ==> whole_degrees(a) == Some(r->Ok_0)) && (whole_degrees(a) is None ==> r is Err) },
+        ensures final(self).lib == old(self).lib, match angle { None => r == Ok::<i32, LayoutError>(0), Some(a) => (r is Ok ==> whole_degrees(a) == Some(r->Ok_0)) && (whole_degrees(a) is None ==> r is Err) },
     { unimplemented!() }
 //@ fn layout21raw/src/proto.rs :: impl<'lib> ProtoExporter<'lib> :: fn export_instance
 //@   ret r
 //@   spec
-//|     ensures r is Ok ==> ({
+//|     ensures final(self).lib == old(self).lib, r is Ok ==> ({
 //|         let g = r->Ok_0;
 //|         &&& g.name@ == inst.inst_name@ &&& g.reflect_vert == inst.reflect_vert
 //|         &&& g.origin_location is Some && same_pt(g.origin_location->0, inst.loc)
@@ -231,20 +256,20 @@ impl CellMap {
 pub trait Unwrapper: Sized {
     type Ok;
     spec fn some_spec(&self) -> Option<Self::Ok>;
-    fn unwrapper<M>(self, helper: &ProtoImporter, msg: M) -> (r: Result<Self::Ok, LayoutError>)
+    fn unwrapper<H, M>(self, helper: &H, msg: M) -> (r: Result<Self::Ok, LayoutError>)
         ensures self.some_spec() is Some ==> r == Ok::<Self::Ok, LayoutError>(self.some_spec()->0), self.some_spec() is None ==> r is Err;
 }
 impl<T> Unwrapper for Option<T> {
     type Ok = T;
     open spec fn some_spec(&self) -> Option<T> { *self }
     #[verifier::external_body]
-    fn unwrapper<M>(self, helper: &ProtoImporter, msg: M) -> (r: Result<T, LayoutError>) { match self { Some(t) => Ok(t), None => Err(LayoutError { }) } }
+    fn unwrapper<H, M>(self, helper: &H, msg: M) -> (r: Result<T, LayoutError>) { match self { Some(t) => Ok(t), None => Err(LayoutError { }) } }
 }
 // R5: importer reduced to the fields the leaf converters touch
 //@ item layout21raw/src/proto.rs :: struct ProtoImporter
 //@   sub R5 /pub layers: Ptr<Layers>,/ =>
 //@   sub R5 /cell_map: HashMap<String, Ptr<Cell>>,/ => pub cell_map: CellMap,
-//@   sub R5 /lib: Library,/ =>
+//@   sub R4 /\n    lib: Library,/ => \n    pub lib: Library,
 //@   sub R4 /\n    ctx:/ => \n    pub ctx:
 //@ end
 /// R11: i32 -> f64 conversion (exact), wrapped because f64 is opaque to the verifier
